@@ -21,7 +21,8 @@ RULE = ('(a) valid programs from the typed generator G; (b) token-level '
         'each operand missing, duplicated or replaced by an expression of '
         'every other kind (numeric, string, record, array, function name, '
         'keyword), at module level, inside a SUB and inside a block - '
-        'enumerated completely.  Each input x O0/O1/O2 x {-g, no -g}.  '
+        'enumerated completely; plus 20 extreme constants into every '
+        'numeric target position.  Each input x O0/O1/O2 x {-g, no -g}.  '
         'Bounds: <= 40 lines, nesting <= 4.  Non-trivial: the input passed '
         'the parser (reached the semantic passes) or is rejected at a line '
         'other than the first.  Distinct by text.')
@@ -180,6 +181,21 @@ CONTEXT_BODIES = ['EXIT FOR', 'EXIT DO', 'EXIT SUB', 'EXIT FUNCTION', 'NEXT',
                   'DIM SHARED q8', 'TYPE q9\nz AS LONG\nEND TYPE']
 
 
+EXTREME = ['1D+300', '-1D+300', '3.402823E+38', '-3.402823E+38', '1D-320',
+           '3.5D+38', '1E+38 * 10', '32767', '-32768', '32768', '-32769',
+           '2147483647', '-2147483648', '2147483648#', '1D+308 * 10',
+           '32767.4', '32767.5', '-32768.5', '2147483647.5#', '1E+10']
+EXTREME_TEMPLATES = [
+    'x% = {0}', 'x& = {0}', 'x! = {0}', 'x# = {0}', 'CONST c% = {0}',
+    'CONST c! = {0}', 'CONST c# = {0}', 'arr({0}) = 1', 'DIM z({0})',
+    'PRINT {0}; CINT({0}); CSNG({0})', 'CALL sb({0}, "a")', 'x = fn%({0})',
+    'FOR i% = 1 TO {0}\nEXIT FOR\nNEXT', 'FOR i! = {0} TO 1\nNEXT',
+    'SELECT CASE n%\nCASE {0}\nEND SELECT', 'LOCATE {0}', 'r.fa = {0}',
+    'x! = -({0})', 'x! = {0} + 0', 'IF {0} THEN PRINT 1', 'x$ = CHR$({0})',
+    'x$ = SPACE$({0})', 'DATA {0}\nREAD x!',
+]
+
+
 def catalogue():
     out = []
     for tpl in TEMPLATES:
@@ -224,6 +240,10 @@ def items(cfg):
     if cfg['tier'] == 'quick':
         rng.shuffle(out)
         out = out[:cfg['quick_sample']]
+    # extreme constants into every numeric target type: in both tiers
+    for v in EXTREME:
+        for tpl in EXTREME_TEMPLATES:
+            out.append((tpl.format(v), 0, False))
     # context-sensitive statements: at every site, in both tiers
     for body in CONTEXT_BODIES:
         for site in range(len(SITES)):
